@@ -691,6 +691,12 @@ def _unify(a, b, m, inv, is_var):
         if not (a and b and not isinstance(a[0], str) and not isinstance(b[0], str) and len(a) == len(b)):
             return
     h = a[0] if a and isinstance(a[0], str) else None
+    if h == 'call' and len(a) == 4 and len(b) == 4 and isinstance(a[1], str) and isinstance(b[1], str) and a[1] != b[1]:
+        # the callee is named by a string: a local variable holding a function is renamable like any other local
+        if is_var(a[1]) and is_var(b[1]):
+            for m2, i2 in _unify(('name', a[1]), ('name', b[1]), m, inv, is_var):
+                yield from _unify_seq(list(a[2:]), list(b[2:]), m2, i2, is_var)
+        return
     if h in _COMM_TUPLE and len(a) == 2 and isinstance(a[1], tuple) and isinstance(b[1], tuple):
         yield from _unify_multiset(list(a[1]), list(b[1]), m, inv, is_var)
         return
